@@ -24,14 +24,15 @@ def main(tier, replay):
         "real ProjDataFromStream over std::stringstream / std::fstream, ProjDataInterfile (+ ProjData::read_from_file with the writer still open) and "
         "ProjDataInMemory on generated geometries (8-16 detectors, 2-5 rings, span 1/3, view mashing, TOF 1/3/5 bins, trimmed axial/tangential/segment "
         "ranges) x 2 storage orders x random segment-sequence permutations x float/short/ushort/int x both byte orders x stream offsets 0/12/37/256; "
-        "random interleaved histories (30 ops quick, 80 thorough) of set/get bin, viewgram, sinogram, segment by view / by sinogram, related viewgrams "
-        "(real DataSymmetriesForBins_PET_CartesianGrid), fill, fill_from/copy_to/fill(ProjData), and requests outside every index range. "
+        "160 cases quick / 3000 thorough; random interleaved histories (30 ops quick, 80 thorough) of set/get bin, viewgram, sinogram, segment by view / by sinogram, related viewgrams "
+        "(real DataSymmetriesForBins_PET_CartesianGrid), fill, fill_from/copy_to/fill(ProjData)/begin_all iteration, ProjData::write_to_file, and requests outside every index range. "
         "Per write: the element slots whose BYTES changed (byte copy of the store diffed before/after; get_offset is never called) + checksum of the "
         "new contents decoded by the harness + visibility to a second std::ifstream before the harness flushes; per read: the values returned. "
         "Each line is compared for equality with the Lean model's answer (exact, integers only). Oracle: reference std::map<bin,float>, full sweep "
-        "through a random other path after every write, out-of-range requests must throw and change nothing.",
+        "through a random other path after every write, out-of-range requests must throw and change nothing, header round trip (geometry, exam info, "
+        "segment sequence, storage order, number format, values) with the writer still open.",
         extra=dict(input_histogram=info))
-    chk.assumptions += ["values are small non-negative integers and scale factor 1, so every on-disk type is exact",
+    chk.assumptions += ["values are small integers (|v| <= 250, non-negative for unsigned short) and scale factor 1, so every on-disk type is exact",
                         "32/64-bit overflow of offsets not modelled", "min_view_num is 0 (no STIR setter changes it)",
                         "timing_poss_sequence is the natural order (class documentation: changing it is not supported)",
                         "byte encoding of values (numeric type, byte order) is decoded by the harness, not modelled in Lean",
